@@ -204,7 +204,7 @@ fn c07_bigk<P: KS>(out: &mut Out, seed: u64, tier: &Tier, counter: &mut usize) {
 /// simple_scan with an explicit permutation table (small p only: the table is part of the case line)
 fn c07_simple<P: KS>(out: &mut Out, seed: u64, tier: &Tier, counter: &mut usize) {
     let p = P::k();
-    let reps = if tier.thorough { 40 } else { 6 };
+    let reps = if tier.thorough { 400 } else { 60 };
     for rep in 0..reps {
         *counter += 1;
         if *counter % tier.nshards != tier.shard {
@@ -227,6 +227,26 @@ fn c07_simple<P: KS>(out: &mut Out, seed: u64, tier: &Tier, counter: &mut usize)
             debruijn::msp::simple_scan::<_, P>(k, &DnaSlice(&seq), &perm, rc)
         }));
         out.nt = r.as_ref().map(|v| v.len() >= 2).unwrap_or(false);
+        // the verified checker on the intervals as reported (bucket, start, len): some p-mer with that bucket lies in
+        // every k-mer of the interval and has the minimal score
+        if let Some(v) = &r {
+            let score = |x: &[u8]| -> usize {
+                let rank = |y: &[u8]| y.iter().fold(0usize, |a, b| a * 4 + *b as usize);
+                let s1 = perm[rank(x)];
+                if rc {
+                    let rcx: Vec<u8> = x.iter().rev().map(|b| 3 - *b).collect();
+                    s1.min(perm[rank(&rcx)])
+                } else {
+                    s1
+                }
+            };
+            let scs: Vec<V> = (0..=seq.len() - p).map(|j| nu(score(&seq[j..j + p]))).collect();
+            out.case(
+                "chk.simple_scan",
+                l(vec![dna(&seq), nu(k), nu(p), l(scs), l(v.iter().map(|iv| l(vec![n(iv.bucket()), nu(iv.start()), nu(iv.len())])).collect())]),
+                b(true),
+            );
+        }
         out.case(
             "scan.simple",
             l(vec![dna(&seq), nu(k), nu(p), l(perm.iter().map(|x| nu(*x)).collect()), b(rc)]),
